@@ -170,6 +170,7 @@ func suiteCrash(seed uint64, n int, work string, power bool, sparse bool) {
 		p = profileByName("sparse2")
 		p.Reopen, p.Txs, p.ReadOnly, p.Abort = 0, 14, 5, 5
 	}
+	sparseBuckets := []string{"bk", "data", "cache", "t", "a.m"}
 	images, opens := 0, 0
 	for i := 0; i < n; i++ {
 		r := root.Fork()
@@ -182,6 +183,16 @@ func suiteCrash(seed uint64, n int, work string, power bool, sparse bool) {
 		if sparse {
 			mode = 2
 			seg = []int{300, 450, 600}[r.Intn(3)]
+		}
+		pi := p
+		if sparse {
+			pi.Buckets = []string{sparseBuckets[i%len(sparseBuckets)]}
+		}
+		if !sparse && i%4 == 3 {
+			// a long history over small segments: more than ten data files (file ids with one and two digits)
+			pi.Txs = 34
+			pi.OpsMin, pi.OpsMax = 2, 4
+			seg = 150
 		}
 		open := optLine(mode, rw, load, sync, seg)
 		emit("#H %d %s power=%v", i, open, power)
@@ -199,7 +210,7 @@ func suiteCrash(seed uint64, n int, work string, power bool, sparse bool) {
 			rc := s.record
 			s.record = false // observations are reads; the files they touch are not part of the workload's trace
 			var rs []string
-			for _, c := range obsCalls(p) {
+			for _, c := range obsCalls(pi) {
 				rs = append(rs, s.run(c))
 			}
 			s.record = rc
@@ -208,7 +219,7 @@ func suiteCrash(seed uint64, n int, work string, power bool, sparse bool) {
 		}
 		obsList := [][]string{obsOf(live)}
 		var spans []span
-		body := genHistory(r, p, seg)
+		body := genHistory(r, pi, seg)
 		for _, c := range body {
 			if c == "reopen" || live.dead {
 				continue
@@ -339,20 +350,28 @@ func suiteCrash(seed uint64, n int, work string, power bool, sparse bool) {
 						}
 					}
 					if !okk {
-						d := firstDiff(o, obsList[admissible[0]], obsCalls(p))
+						d := firstDiff(o, obsList[admissible[0]], obsCalls(pi))
 						specOrKnown("crash at event %d/%d (%s %s off=%d torn=%d power=%v keepLast=%v inflight=%v): recovered state is neither the state before nor after the in-flight transaction: %s", e, len(events), evOp(events, e), evPath(events, e), evOff(events, e), torn, pl == 1, keepLast, inflight, d)
 					}
 					// continue after recovery: more commits (forcing rotations), clean reopen
-					if okk && (images%7 == 0 || torn > 100) {
+					if okk && (images%7 == 0 || torn > 100 || (torn > 0 && images%5 == 0)) {
 						cur = rec
 						ok2 := true
 						ncont := 5
 						if images%14 == 0 || torn > 100 {
 							ncont = 1 // a single short record over the torn one: its leftover bytes follow
 						}
+						big := torn > 0 && images%5 == 0 && !sparse
+						if big {
+							ncont = 2 // first a record as large as a whole segment: rotation seals the segment with the torn bytes at its tail
+						}
 						for t := 0; t < ncont && ok2; t++ {
+							cv := strings.Repeat("\x02", 40+t)
+							if big && t == 0 {
+								cv = strings.Repeat("\x02", seg-42-2-2)
+							}
 							rec.run("begin w ?")
-							rec.run(fmt.Sprintf("put %s %s %s 0 1700000000", hx([]byte("zz")), hx([]byte(fmt.Sprintf("c%d", t))), hx([]byte(strings.Repeat("\x02", 40+t)))))
+							rec.run(fmt.Sprintf("put %s %s %s 0 1700000000", hx([]byte("zz")), hx([]byte(fmt.Sprintf("c%d", t))), hx([]byte(cv))))
 							if rec.run("commit") != "ok" {
 								ok2 = false
 								specOrKnown("commit failed after crash recovery (event %d torn %d)", e, torn)
